@@ -62,8 +62,8 @@ def check(spec):
     from pennylane.allocation import Allocate, Deallocate
     from pennylane.core.operator import abstractify
 
-    op = X.build(spec["expr"])
-    rule = dict(X.rules_for(op)).get(spec["rule"])
+    op, rules = X.instance(spec["expr"])
+    rule = rules.get(spec["rule"])
     if rule is None:
         return bad(f"rule-vanished:{spec['key']}:{spec['rule']}", None, spec["rule"])
     params = X.decomp_args(op)[0]
